@@ -11,6 +11,7 @@ import (
 	"context"
 	"errors"
 	"fmt"
+	"io"
 	"runtime"
 	"sort"
 	"strconv"
@@ -35,6 +36,7 @@ type Ev struct {
 	ND   bool   `json:"nd,omitempty"`   // req: name a dialer that does not exist
 	OK   bool   `json:"ok,omitempty"`   // dial: succeed
 	Slow bool   `json:"slow,omitempty"` // dial ok: the handle's Close() parks until closego
+	EK   int    `json:"ek,omitempty"`   // dial fail: kind of error (0 plain, 1 wraps context.DeadlineExceeded, 2 wraps io.EOF)
 }
 
 // Ret is one Connection call that returned.
@@ -83,6 +85,7 @@ type dialrec struct {
 	addr    int
 	inDial  bool
 	slow    bool
+	ek      int
 	rel     chan bool
 }
 
@@ -102,11 +105,12 @@ type ctl struct {
 	handles  map[int]*grpc.ClientConn
 	byConn   map[*grpc.ClientConn]int
 	curReq   int
+	dialErrs map[error]bool        // the error values the scripted Dial returned
 	bals     map[int]*hBalancer    // handle -> its balancer
 	broken   map[int]bool          // handle was driven to TRANSIENT_FAILURE
 	pClose   map[int]chan struct{} // handle -> its Close() is parked in the resolver
 	parked   int                   // handle whose Close is parked, -1 if none
-	used     bool                  // a lock-kind event was already played during this park
+	used     int                   // lock-kind events already played during this park (at most 2)
 	inclose  []int
 	reldone  []int
 	cleanup  bool
@@ -147,13 +151,30 @@ func goid() uint64 {
 	return id
 }
 
+// creatorGoid is the id of the goroutine that started the calling one.
+func creatorGoid() uint64 {
+	buf := make([]byte, 8192)
+	n := runtime.Stack(buf, false)
+	b := buf[:n]
+	i := bytes.LastIndex(b, []byte(" in goroutine "))
+	if i < 0 {
+		return 0
+	}
+	f := bytes.Fields(b[i+len(" in goroutine "):])
+	if len(f) == 0 {
+		return 0
+	}
+	id, _ := strconv.ParseUint(string(f[0]), 10, 64)
+	return id
+}
+
 func newCtl() *ctl {
 	c := &ctl{
 		threads: map[int]*thread{}, ctxs: map[int]context.Context{}, cancels: map[int]context.CancelFunc{},
 		canceled: map[int]bool{}, dials: map[int]*dialrec{}, pJoined: map[int]chan struct{}{},
 		pFailed: map[int]chan struct{}{}, byGoid: map[uint64]int{}, dialGoid: map[uint64]int{},
 		handles: map[int]*grpc.ClientConn{}, byConn: map[*grpc.ClientConn]int{}, curReq: -1, extra: 900,
-		pClose: map[int]chan struct{}{}, parked: -1, bals: map[int]*hBalancer{}, broken: map[int]bool{},
+		pClose: map[int]chan struct{}{}, parked: -1, bals: map[int]*hBalancer{}, broken: map[int]bool{}, dialErrs: map[error]bool{errScripted: true},
 	}
 	c.self = goid()
 	m, err := connection.NewManagerCustom(map[string]connection.Dial{connection.DEFAULT: c.dial})
@@ -165,6 +186,50 @@ func newCtl() *ctl {
 	current.c = c
 	current.mu.Unlock()
 	return c
+}
+
+// scriptedErr makes the error a failing Dial returns: a fresh value (so that it
+// is recognised by identity) of the kind the script asks for.
+func (c *ctl) scriptedErr(kind int) error {
+	var err error
+	switch kind {
+	case 1:
+		err = fmt.Errorf("scripted dial failure: %w", context.DeadlineExceeded)
+	case 2:
+		err = fmt.Errorf("scripted dial failure: %w", io.EOF)
+	default:
+		err = errors.New("scripted dial failure")
+	}
+	c.mu.Lock()
+	c.dialErrs[err] = true
+	c.mu.Unlock()
+	return err
+}
+
+// addrName is the address string of address number a: an ordinary one, the
+// empty string, and one that differs from the first only by case.
+func addrName(a int) string {
+	switch a {
+	case 0:
+		return "addr-0"
+	case 1:
+		return ""
+	case 2:
+		return "ADDR-0"
+	}
+	return fmt.Sprintf("addr-%d", a)
+}
+
+func addrNum(s string) int {
+	for a := 0; a < 3; a++ {
+		if addrName(a) == s {
+			return a
+		}
+	}
+	if v, err := strconv.Atoi(strings.TrimPrefix(s, "addr-")); err == nil {
+		return v
+	}
+	return 99
 }
 
 func (c *ctl) ctx(i int) context.Context {
@@ -200,8 +265,12 @@ func (c *ctl) hook(p string) {
 	case "dial:failed":
 		d, ok := c.dialGoid[g]
 		if !ok {
-			// never entered Dial (unknown dialer name): it belongs to the request in progress
+			// never entered Dial (unknown dialer name): it belongs to the request
+			// whose goroutine created this one ("created by ... in goroutine N")
 			d = c.curReq
+			if t, ok := c.byGoid[creatorGoid()]; ok {
+				d = t
+			}
 			if _, dup := c.pFailed[d]; dup || d < 0 {
 				d = c.extra
 				c.extra++
@@ -224,10 +293,7 @@ func (c *ctl) dial(ctx context.Context, target string, _ ...grpc.DialOption) (*g
 	if !ok {
 		creator = -1
 	}
-	addr, err := strconv.Atoi(strings.TrimPrefix(target, "addr-"))
-	if err != nil {
-		addr = 99
-	}
+	addr := addrNum(target)
 	g := goid()
 	c.mu.Lock()
 	if c.cleanup {
@@ -249,7 +315,7 @@ func (c *ctl) dial(ctx context.Context, target string, _ ...grpc.DialOption) (*g
 		d.inDial = false
 		c.mu.Unlock()
 		if !ok {
-			return nil, errScripted
+			return nil, c.scriptedErr(d.ek)
 		}
 		// A real ClientConn with a resolver and a balancer of our own: the
 		// resolver's Close parks for slow handles (ClientConn.Close waits for
@@ -294,7 +360,7 @@ func (c *ctl) worker(t *thread, ctx context.Context, dialer string) {
 				c.mu.Unlock()
 			}
 		}()
-		conn, done, err := c.m.Connection(ctx, fmt.Sprintf("addr-%d", t.addr), dialer)
+		conn, done, err := c.m.Connection(ctx, addrName(t.addr), dialer)
 		c.mu.Lock()
 		r := Ret{I: t.id}
 		switch {
@@ -303,7 +369,7 @@ func (c *ctl) worker(t *thread, ctx context.Context, dialer string) {
 			switch {
 			case errors.Is(err, context.Canceled):
 				r.Cls = 1
-			case err == errScripted:
+			case c.dialErrs[err]:
 				r.Cls = 2
 			default:
 				r.Cls = 3
@@ -525,10 +591,10 @@ func (c *ctl) admitted(e Ev) bool {
 	if c.parked < 0 || !lockKind(e.K) {
 		return true
 	}
-	if c.used {
+	if c.used >= 2 {
 		return false
 	}
-	c.used = true
+	c.used++
 	return true
 }
 
@@ -577,6 +643,7 @@ func (c *ctl) do(e Ev) Obs {
 		c.mu.Lock()
 		d := c.dials[e.I]
 		d.slow = e.OK && e.Slow
+		d.ek = e.EK
 		c.mu.Unlock()
 		d.rel <- e.OK
 	case "failgo":
@@ -616,7 +683,7 @@ func (c *ctl) do(e Ev) Obs {
 		c.mu.Lock()
 		ch := c.pClose[e.I]
 		delete(c.pClose, e.I)
-		c.parked, c.used = -1, false
+		c.parked, c.used = -1, 0
 		c.mu.Unlock()
 		close(ch)
 	}
@@ -645,6 +712,9 @@ func (c *ctl) do(e Ev) Obs {
 	// a call that blocks (on m.mu behind a parked Close, or for ever) shows as
 	// a missing arrival / return / done(), which the model and K_P predict
 	_ = t
+	if e.K == "closego" && c.parked >= 0 {
+		c.used = 2 // a park that begins while the blocked events run admits no further lock-kind event
+	}
 	if c.curReq >= 0 {
 		// a request still blocked on the mutex keeps the attribution of a
 		// dialer that arrives at dial:failed without having entered Dial
@@ -778,7 +848,7 @@ func (r *hResolver) Close() {
 	ch := make(chan struct{})
 	c.pClose[r.h] = ch
 	c.parked = r.h
-	c.used = false
+	c.used = 0
 	c.inclose = append(c.inclose, r.h)
 	c.mu.Unlock()
 	<-ch
